@@ -318,6 +318,8 @@ def hessqr_shape_groups(report):
     groups.append(Group("hessqr.shape.matrix_QtHQ", HQS_TYPES + t2 + spec2.harness("h", alloc2, "Q, dest"), "h", enforce="hqs_QtHQ", solver="cadical", defines=["SCALAR_DOUBLE"], timeout=900,
                         functions=[QH + ":UpperHessenbergQR::matrix_QtHQ"], expect_classes=["loop_invariant_step", "cursor access"],
                         note="UNBOUNDED in n: the column sweeps write only cells with row <= col + 1; the diagonal shift only diagonal cells"))
+    from props import kernels2
+    groups += kernels2.hessqr_apply_YQ_unbounded(report)
     return groups
 
 
@@ -472,7 +474,7 @@ void h(void) {
                         defines=["SCALAR_FLOAT"], timeout=600, functions=dsf(["apply_QtY", "apply_PX(Scalar*)"]), expect_classes=["loop_invariant_step", "dsqr.apply_QtY"],
                         note="UNBOUNDED in n (loop contract on the y_ptr walk); every x[0..nr) access of the vector apply_PX is inside y given the record property proved by dsqr.compute (forall-instantiation at the index read)"))
     from props import kernels2
-    groups += kernels2.dsqr_unbounded(report)
+    groups += kernels2.dsqr_unbounded(report) + kernels2.dsqr_compute_unbounded(report)
     sc_text = base + byname["stable_norm3"] + byname["stable_scaling"] + byname["compute_reflector3"] + h_s
     for k, nm in ((1, "stable_norm3"), (2, "compute_reflector.nr")):
         groups.append(Group("dsqr.scalar.%s" % nm, sc_text, "h", loop_contracts=False, solver="kissat", defines=["SCALAR_FLOAT", "CLAUSE=%d" % k], timeout=900,
